@@ -96,6 +96,8 @@ func checkC06(c *Ctx, r *Report) {
 	}
 	r.Count("accesses", nacc)
 	r.Count("path_states_max", res.maxStates)
+	registerPositiveControls(c, r)
+	r.Floor("positive_controls", 2)
 	r.Floor("consumption_obligations", 4)
 	r.Floor("scratch_loads", 3)
 	r.Floor("accesses", 100)
